@@ -34,8 +34,8 @@ type c13Case struct {
 	Ops   []fileOp `json:"ops,omitempty"`
 	Crash bool     `json:"crash,omitempty"`
 	// crash: Create interrupted after Writes complete writes; the next write left Torn bytes (-1: not started)
-	Writes int `json:"writes,omitempty"`
-	Torn   int `json:"torn,omitempty"`
+	Writes int  `json:"writes,omitempty"`
+	Torn   int  `json:"torn,omitempty"`
 	DC     bool `json:"dc,omitempty"`
 }
 
